@@ -420,6 +420,65 @@ pub fn run(cfg: &Config) -> i32 {
 			(Value::Array(vec![Value::Null]), Kind::Array),
 			(Value::Object(json_syntax::Object::new()), Kind::Object),
 		];
+		// the predicates, accessors and conversions that report or depend on the kind of a value
+		for (v, k) in &samples {
+			rep.evaluations += 1;
+			let preds = [v.is_null(), v.is_boolean(), v.is_number(), v.is_string(), v.is_array(), v.is_object()];
+			let want: Vec<bool> = KINDS.iter().map(|x| x == k).collect();
+			if preds.to_vec() != want {
+				fail(&mut rep, "value-kind", format!("{:?}: is_null/is_boolean/is_number/is_string/is_array/is_object = {:?}", v, preds));
+			}
+			let refs = [false, v.as_boolean().is_some(), v.as_number().is_some(), v.as_string().is_some() && v.as_str().is_some(), v.as_array().is_some(), v.as_object().is_some()];
+			let mut m = v.clone();
+			let muts = [false, m.as_boolean_mut().is_some(), m.as_number_mut().is_some(), m.as_string_mut().is_some(), m.as_array_mut().is_some(), m.as_object_mut().is_some()];
+			let intos = [false, v.clone().into_boolean().is_some(), v.clone().into_number().is_some(), v.clone().into_string().is_some(), v.clone().into_array().is_some(), v.clone().into_object().is_some()];
+			for (i, kk) in KINDS.iter().enumerate().skip(1) {
+				if refs[i] != (kk == k) || muts[i] != (kk == k) || intos[i] != (kk == k) {
+					fail(&mut rep, "value-kind", format!("{:?}: as_/as_..._mut/into_ accessors for {:?} give {} / {} / {}", v, kk, refs[i], muts[i], intos[i]));
+				}
+			}
+			let fa = v.force_as_array();
+			let ok_fa = match v {
+				Value::Array(a) => fa.len() == a.len() && fa.as_ptr() == a.as_ptr(),
+				other => fa.len() == 1 && std::ptr::eq(&fa[0], other),
+			};
+			let empty = matches!(v, Value::Array(a) if a.is_empty()) || matches!(v, Value::Object(o) if o.is_empty());
+			let mut t = v.clone();
+			let taken = t.take();
+			if !ok_fa || v.is_empty_array_or_object() != empty || taken != *v || !t.is_null() {
+				fail(&mut rep, "value-kind", format!("{:?}: force_as_array / is_empty_array_or_object / take disagree with the variant", v));
+			}
+		}
+		{
+			rep.evaluations += 1;
+			let from_kinds: Vec<(Value, Kind, &str)> = vec![
+				(Value::from(true), Kind::Boolean, "true"),
+				(Value::from("s"), Kind::String, "\"s\""),
+				(Value::from(String::from("s")), Kind::String, "\"s\""),
+				(Value::from(json_syntax::String::from("s")), Kind::String, "\"s\""),
+				(Value::from(vec![Value::Null]), Kind::Array, "[null]"),
+				(Value::from(json_syntax::Object::new()), Kind::Object, "{}"),
+				(Value::from(json_syntax::NumberBuf::from(7u8)), Kind::Number, "7"),
+				(Value::from(u8::MAX), Kind::Number, "255"),
+				(Value::from(u16::MAX), Kind::Number, "65535"),
+				(Value::from(u32::MAX), Kind::Number, "4294967295"),
+				(Value::from(u64::MAX), Kind::Number, "18446744073709551615"),
+				(Value::from(i8::MIN), Kind::Number, "-128"),
+				(Value::from(i16::MIN), Kind::Number, "-32768"),
+				(Value::from(i32::MIN), Kind::Number, "-2147483648"),
+				(Value::from(i64::MIN), Kind::Number, "-9223372036854775808"),
+			];
+			for (v, k, text) in from_kinds {
+				if v.kind() != k || v.to_string() != text {
+					fail(&mut rep, "value-kind", format!("a From conversion gives {:?} (kind {:?}), expected {} of kind {:?}", v, v.kind(), text, k));
+				}
+			}
+			let f64_ok = Value::try_from(1.5f64).map(|v| (v.kind(), v.to_string()));
+			let f32_ok = Value::try_from(0.25f32).map(|v| (v.kind(), v.to_string()));
+			if !matches!(&f64_ok, Ok((Kind::Number, t)) if t == "1.5") || !matches!(&f32_ok, Ok((Kind::Number, t)) if t == "0.25") || Value::try_from(f64::NAN).is_ok() || Value::try_from(f32::INFINITY).is_ok() {
+				fail(&mut rep, "value-kind", format!("TryFrom<f64/f32>: {:?} / {:?} (non-finite values must be refused)", f64_ok.map_err(|_| ()), f32_ok.map_err(|_| ())));
+			}
+		}
 		for (v, k) in &samples {
 			for k2 in KINDS {
 				rep.evaluations += 1;
@@ -445,7 +504,7 @@ pub fn run(cfg: &Config) -> i32 {
 		cfg,
 		EvidenceMeta {
 			id: "C20",
-			rule: "complete enumeration of the finite domain: all 64 sets (each built in 5 ways through the public API), all 64x64 set pairs (| & |= &= ==), all 64x6 set/kind pairs in both operand orders, all 6x6 kind pairs, every interleaving of next/next_back of length 0..7 on every set with size_hint/len checked before every step, every sequence of up to 3 calls among next / next_back / nth(k) / nth_back(k) (k in 0,1,2,7) against a double-ended-queue model with every whole-iterator method of Iterator / DoubleEndedIterator / ExactSizeIterator (collect, rev, count, last, min, max, min_by, max_by, *_by_key, fold, rfold, reduce, partition, eq, cmp, is_sorted, for_each, step_by, skip, take, chain, zip, enumerate, peekable, find, rfind, position, rposition, any, all, find_map, skip_while, take_while, and the items left after each searching method) applied to a copy after every prefix, Display / as_disjunction / as_conjunction of every set, Value::kind / is_kind for a value of each variant; compared with a BTreeSet<Kind> model; each enumerated combination is distinct by construction and non-trivial",
+			rule: "complete enumeration of the finite domain: all 64 sets (each built in 5 ways through the public API), all 64x64 set pairs (| & |= &= ==), all 64x6 set/kind pairs in both operand orders, all 6x6 kind pairs, every interleaving of next/next_back of length 0..7 on every set with size_hint/len checked before every step, every sequence of up to 3 calls among next / next_back / nth(k) / nth_back(k) (k in 0,1,2,7) against a double-ended-queue model with every whole-iterator method of Iterator / DoubleEndedIterator / ExactSizeIterator (collect, rev, count, last, min, max, min_by, max_by, *_by_key, fold, rfold, reduce, partition, eq, cmp, is_sorted, for_each, step_by, skip, take, chain, zip, enumerate, peekable, find, rfind, position, rposition, any, all, find_map, skip_while, take_while, and the items left after each searching method) applied to a copy after every prefix, Display / as_disjunction / as_conjunction of every set, Value::kind / is_kind, the is_ / as_ / as_mut / into_ accessors, force_as_array, take and the From / TryFrom conversions for a value of each variant; compared with a BTreeSet<Kind> model; each enumerated combination is distinct by construction and non-trivial",
 			exhaustive: true,
 			assumptions: vec!["renderings: nothing / single kind / 'a, b or c' / 'a, b and c' / anything, kinds in ascending order null < boolean < number < string < array < object".into()],
 			extra: json!({}),
